@@ -49,7 +49,7 @@ M = [
  ("C13", "gt-operands-swapped", "typer/src/evaluator.rs", "(ir::Constant::Int32(lhs), ir::Constant::Int32(rhs)) => ir::Constant::Bool(lhs > rhs),", "(ir::Constant::Int32(lhs), ir::Constant::Int32(rhs)) => ir::Constant::Bool(rhs > lhs),", ["C13.op/GreaterThan/Int32xInt32"]),
  ("C14", "comment-not-whitespace", "text/src/tokens.rs", "Token::Endline | Token::PhysicalEndline | Token::Whitespace | Token::Comment", "Token::Endline | Token::PhysicalEndline | Token::Whitespace", ["C14.ws/is_whitespace/Comment"]),
  ("C14", "reserve-two", "text/src/location.rs", "self.next_location = self.next_location.offset(file_size + 1);", "self.next_location = self.next_location.offset(file_size + 2);", ["C14.line/reserve/add_file"]),
- ("C15", "direct-name-not-inserted", "ir/src/name_generator.rs", "let name = if symbols.len() == 1 && used_names.insert(name.clone()) {", "let name = if symbols.len() == 1 && !used_names.contains(name) {", ["C15.unique/direct"]),
+ ("C15", "generated-name-not-inserted", "ir/src/name_generator.rs", "                            if used_names.insert(candidate.clone()) {\n                                used_names_all_scopes.insert(candidate.clone());", "                            if !used_names.contains(&candidate) {\n                                used_names_all_scopes.insert(candidate.clone());", ["C15.unique/model/overloads-and-locals"]),
  ("C15", "reserved-entry-removed", "hlsl/src/names.rs", '    "asuint",\n', "", ["C15.builtins/hlsl/asuint"]),
  ("C16", "first-candidate-wins", "typer/src/typer/expressions.rs", "if casts.len() == 1 {", "if !casts.is_empty() {", ["C16.unique/ok-only-when-single"]),
  ("C16", "equal-disqualifies", "typer/src/typer/expressions.rs", "ConversionPriority::Equal => {}", "ConversionPriority::Equal => not_worse_than = false,", ["C16.sym/only-worse-disqualifies"]),
